@@ -19,7 +19,7 @@ import ast
 import itertools
 from dataclasses import dataclass, field
 
-from .core import AnalysisError, MISSING
+from .core import AnalysisError, MISSING, UNRECOGNISED
 from .pymodel import package
 from .valueflow import Flow, lower, peval, show, simp, subst, walk, truthy, flatten_fstr
 
@@ -159,6 +159,56 @@ def _literal_like(node) -> bool:
     return all(isinstance(n, _LITERAL_NODES) for n in ast.walk(node))
 
 
+def _getter_call(node) -> bool:
+    """`attrgetter("a", "b")` / `operator.itemgetter(0)` with constant arguments: a pure projection, bound to a module-level name it is
+    as good as a literal (valueflow.simp applies it to its argument)"""
+    return isinstance(node, ast.Call) and not node.keywords and bool(node.args) and all(isinstance(a, ast.Constant) for a in node.args) \
+        and ast.unparse(node.func) in ("attrgetter", "itemgetter", "operator.attrgetter", "operator.itemgetter")
+
+
+def static_dict(node):
+    """[(key node, value node)] of a class-level / module-level table, whichever way the dict is spelled: a display, `dict(<static
+    sequence of pairs>)` (a display of 2-tuples, zip / enumerate of displays ...: normalize._static_seq), `dict(k=v, ..)`, a dict
+    comprehension over such a sequence.  None when the entries cannot be read off."""
+    from .normalize import _static_seq, _destructure, _Subst, _fold_expr
+    import copy
+    if isinstance(node, ast.Dict):
+        return None if any(k is None for k in node.keys) else list(zip(node.keys, node.values))
+    pairs = None
+    if isinstance(node, ast.Call) and isinstance(node.func, ast.Name) and node.func.id == "dict" and len(node.args) <= 1 \
+            and all(k.arg is not None for k in node.keywords):
+        pairs = []
+        if node.args:
+            inner = static_dict(node.args[0]) if isinstance(node.args[0], (ast.Dict, ast.DictComp)) else None
+            if inner is not None:
+                pairs = list(inner)
+            else:
+                seq = _static_seq(node.args[0], {})
+                if seq is None or not all(isinstance(e, (ast.Tuple, ast.List)) and len(e.elts) == 2 for e in seq.elts):
+                    return None
+                pairs = [(e.elts[0], e.elts[1]) for e in seq.elts]
+        pairs += [(ast.Constant(value=k.arg), k.value) for k in node.keywords]
+    elif isinstance(node, ast.DictComp) and len(node.generators) == 1 and not node.generators[0].is_async:
+        g = node.generators[0]
+        seq = _static_seq(g.iter, {})
+        if seq is None:
+            return None
+        pairs = []
+        for e in seq.elts:
+            m = _destructure(g.target, e)
+            if m is None:
+                return None
+            # (a filter must be decided by the row's literals: `if name != "X"`)
+            tests = [_fold_expr(_Subst(dict(m)).visit(copy.deepcopy(c))) for c in g.ifs]
+            if not all(isinstance(t, ast.Constant) for t in tests):
+                return None
+            if all(t.value for t in tests):
+                pairs.append(tuple(_fold_expr(_Subst(dict(m)).visit(copy.deepcopy(x))) for x in (node.key, node.value)))
+    if pairs is None or not all(isinstance(k, ast.Constant) for k, _ in pairs):
+        return None
+    return pairs
+
+
 def record_type(st):
     """("rectype", name, fields[, defaults]) for a module-level statement that defines a namedtuple type, else None"""
     if isinstance(st, ast.Assign) and len(st.targets) == 1 and isinstance(st.targets[0], ast.Name) and isinstance(st.value, ast.Call) \
@@ -186,6 +236,28 @@ def record_type(st):
         if fields:
             return ("rectype", st.name, tuple(fields), tuple(defaults))
     return None
+
+
+def dataclass_type(st):
+    """("rectype", name, fields, defaults) for a module-level `@dataclass class X:` whose constructor is the generated one (no bases, no
+    __init__ / __post_init__ / __new__ of its own, init not switched off, constant defaults): X(a, b) / X(a, y=b) binds the fields
+    positionally like a NamedTuple.  None otherwise."""
+    if not isinstance(st, ast.ClassDef) or st.bases or st.keywords:
+        return None
+    decs = [ast.unparse(d) for d in st.decorator_list]
+    if len(decs) != 1 or decs[0].split("(")[0] not in ("dataclass", "dataclasses.dataclass") or "init=False" in decs[0].replace(" ", ""):
+        return None
+    fields, defaults = [], []
+    for b in st.body:
+        if isinstance(b, (ast.FunctionDef, ast.AsyncFunctionDef)) and b.name in ("__init__", "__post_init__", "__new__", "__getattribute__", "__getattr__"):
+            return None
+        if isinstance(b, ast.AnnAssign) and isinstance(b.target, ast.Name) and "ClassVar" not in ast.unparse(b.annotation):
+            fields.append(b.target.id)
+            if b.value is not None:
+                if not isinstance(b.value, ast.Constant):
+                    return None
+                defaults.append((b.target.id, ("const", b.value.value)))
+    return ("rectype", st.name, tuple(fields), tuple(defaults)) if fields else None
 
 
 def _ev_literal(node, consts=None):
@@ -255,7 +327,7 @@ class RateModel:
                             out[alias] = other[tgt[1]]
                 for st in mod.body:
                     if isinstance(st, ast.Assign) and len(st.targets) == 1 and isinstance(st.targets[0], ast.Name) and count.get(st.targets[0].id) == 1 \
-                            and not isinstance(st.value, (ast.Name, ast.Attribute)) and _literal_like(st.value):
+                            and not isinstance(st.value, (ast.Name, ast.Attribute)) and (_literal_like(st.value) or _getter_call(st.value)):
                         out[st.targets[0].id] = simp(_ev_literal(st.value, out))
                     # record types: `P = namedtuple("P", ["a", "b"])` / `namedtuple("P", "a b")` / `class P(NamedTuple): a: T; b: T = d`
                     rt = record_type(st)
@@ -263,6 +335,17 @@ class RateModel:
                         out[rt[1]] = rt
             self._mconsts[file] = out
         return self._mconsts[file]
+
+    def dataclass_types(self, file: str) -> dict:
+        """{name: rectype} of the module-level dataclasses of `file` (see dataclass_type) -- for a rule that wants `X(a, b).m()` read through;
+        not part of module_consts, whose users match constructor calls of the package's dataclasses as calls"""
+        mod = self.pkg.modules.get(file)
+        out = {}
+        for st in (mod.body if mod is not None else ()):
+            rt = dataclass_type(st)
+            if rt is not None:
+                out[rt[1]] = rt
+        return out
 
     def class_displays(self, cls: str) -> dict:
         """{name: (display AST node, file)} of the class-level tables (tuple / list / set / dict displays of constants, enum members and
@@ -399,13 +482,40 @@ class RateModel:
                 return self.basic_types().get(member)
         return None
 
+    def _members_written_out(self, cls: str, node):
+        """`<Enum>.__members__` of an enum class of the package (the nested per-format ReactionType of `cls`, or the basic one) written
+        as the dict display {"NAME": <Enum>.NAME, ..} it is equal to (definition order, aliases included) -- a copy of `node`"""
+        import copy
+        rm = self
+
+        class M(ast.NodeTransformer):
+            def visit_Attribute(self, n):
+                self.generic_visit(n)
+                if n.attr != "__members__" or not isinstance(n.ctx, ast.Load):
+                    return n
+                owner = ast.unparse(n.value)
+                ci = None
+                if owner in ("ReactionType", "self.ReactionType", "cls.ReactionType", f"{cls}.ReactionType") and f"{cls}.ReactionType" in rm.pkg.classes:
+                    ci = rm.pkg.classes[f"{cls}.ReactionType"]
+                elif owner in ("BasicType", "ReactionType") and "ReactionType" in rm.pkg.classes:
+                    ci = rm.pkg.classes["ReactionType"]
+                if ci is None or not ci.attrs:
+                    return n
+                d = ast.Dict(keys=[ast.Constant(value=k) for k in ci.attrs], values=[ast.Attribute(value=copy.deepcopy(n.value), attr=k, ctx=ast.Load()) for k in ci.attrs])
+                return ast.fix_missing_locations(ast.copy_location(d, n))
+        return M().visit(copy.deepcopy(node))
+
     def code_table(self, cls: str, attr: str) -> dict:
         """{code: (member text, int value)} of a class-level dict such as formula2type."""
         c, node = self.pkg.resolve_attr(cls, attr)
-        if node is None or not isinstance(node, ast.Dict):
-            raise AnalysisError(f"code table {cls}.{attr} vanished", (self.pkg.cls(cls).file, 0), MISSING)
+        if node is not None and any(isinstance(n, ast.Attribute) and n.attr == "__members__" for n in ast.walk(node)):
+            node = self._members_written_out(c, node)
+        pairs = static_dict(node) if node is not None else None
+        if pairs is None:
+            raise AnalysisError(f"code table {cls}.{attr} vanished" if node is None else f"code table {cls}.{attr} is not a table whose entries can be read off: "
+                                f"{ast.unparse(node)[:80]}", (self.pkg.cls(cls).file, getattr(node, "lineno", 0)), MISSING if node is None else UNRECOGNISED)
         out = {}
-        for k, v in zip(node.keys, node.values):
+        for k, v in pairs:
             out[ast.literal_eval(k)] = (ast.unparse(v), self._enum_expr(cls, v))
         return out
 
@@ -425,18 +535,26 @@ class RateModel:
                 _, f = self.pkg.resolve(cls, name)
                 return self.specialised(cls, f) if f is not None else None
             dfile = self.pkg.cls(dc).file
-
-            def func_resolver(name):
-                """a small module-level helper function of the class's module (or imported from a package module) called by its bare name"""
-                if name in no_inline or name == "_fill_list":
-                    return None
-                f = self.pkg.functions.get((dfile, name))
-                if f is None:
-                    tgt = self.imported_from(dfile, name)
-                    f = self.pkg.functions.get(tgt) if tgt is not None else None
-                return f
+            func_resolver = self.func_resolver(dfile, no_inline | {"_fill_list"})
             self._flows[key] = Flow(fn, dfile, keep_arms=True, resolver=resolver, consts=self.module_consts(dfile), raise_arms=True, func_resolver=func_resolver)
         return dc, fn, self._flows[key]
+
+    def func_resolver(self, dfile: str, no_inline=frozenset()):
+        """resolver for Flow(func_resolver=..): a small module-level helper function of module `dfile` (or imported there from a package
+        module) called by its bare name;  "<Class>.<method>": a method of a helper class of the same module (a record type with methods)"""
+        def resolve(name):
+            if name in no_inline:
+                return None
+            if "." in name:
+                cname, mname = name.split(".", 1)
+                ci = self.pkg.classes.get(cname)
+                return ci.methods.get(mname) if ci is not None and ci.file == dfile else None
+            f = self.pkg.functions.get((dfile, name))
+            if f is None:
+                tgt = self.imported_from(dfile, name)
+                f = self.pkg.functions.get(tgt) if tgt is not None else None
+            return f
+        return resolve
 
     def variants(self, cls: str, meth: str = "rateexpr", enumerate_conditions=True) -> list:
         dc, fn, fl = self.flow(cls, meth)
